@@ -163,7 +163,10 @@ pub fn version(p: u8) -> Version {
 
 /// Build the real generator for a configuration. `spy`: wrap every mutator in a recording Spy.
 pub fn build_generator(c: &Config, seed: Option<u64>, spy: Option<Arc<Mutex<Vec<SpyRec>>>>) -> Generator {
-    let mut g = Generator::new(version(c.protocol)).with_opcode_range(c.min_opcodes, c.max_opcodes);
+    let mut g = Generator::new(version(c.protocol));
+    if !(c.min_opcodes == 60 && c.max_opcodes == 300) {
+        g = g.with_opcode_range(c.min_opcodes, c.max_opcodes);
+    }
     if let Some(s) = seed {
         g = g.with_seed(s);
     }
@@ -189,13 +192,20 @@ pub fn build_generator(c: &Config, seed: Option<u64>, spy: Option<Arc<Mutex<Vec<
     }
     if c.rate_via_field {
         g.mutation_rate = c.rate;
-    } else {
+    } else if c.rate != 0.1 {
         g = g.with_mutation_rate(c.rate);
     }
-    g = g
-        .with_unsafe_mutations(c.unsafe_mutations)
-        .with_ext_opcodes(c.allow_ext)
-        .with_buffer_opcodes(c.allow_buffer);
+    // options are only set when they differ from the documented defaults (false), so that the
+    // library's own defaults stay under test
+    if c.unsafe_mutations {
+        g = g.with_unsafe_mutations(true);
+    }
+    if c.allow_ext {
+        g = g.with_ext_opcodes(true);
+    }
+    if c.allow_buffer {
+        g = g.with_buffer_opcodes(true);
+    }
     g
 }
 
